@@ -1,6 +1,7 @@
 package main
 
 import (
+	"regexp"
 	"strings"
 
 	"golang.org/x/tools/go/ssa"
@@ -28,6 +29,23 @@ func (o *Ob) Forced(fn *ssa.Function, key, what string, effect func(ssa.Instruct
 	w := &Walk{Fn: fn, Cut: o.E.CutContradicting(assume...), Barrier: effect}
 	r := w.FromEntry()
 	rets := r.Returns()
+	if len(rets) > 0 && len(assume) > 0 {
+		// second chance: every continuation after a branch asserting the first assumption passes the effect
+		var bad []*ssa.Return
+		n := 0
+		for _, b := range fn.Blocks {
+			for si := range b.Succs {
+				if l, ok := o.E.EdgeLit(b, si); ok && assume[0].F(l) {
+					n++
+					rr := w.FromEdge(b, si)
+					bad = append(bad, rr.Returns()...)
+				}
+			}
+		}
+		if n > 0 {
+			rets = bad
+		}
+	}
 	if len(rets) > 0 {
 		var ds []string
 		for _, l := range assume {
@@ -210,4 +228,159 @@ func (e *Eng) EarlyExits(l *Loop) []ssa.Instruction {
 		}
 	}
 	return out
+}
+
+// ---------------------------------------------------------------------------
+// Decision tables (T6)
+// ---------------------------------------------------------------------------
+
+// Row is one row of a decision table: under the assumed literals, every
+// reachable return must return values from the allowed sets, the Must effects
+// lie on every path to a return and the Never effects on none.
+type Row struct {
+	Name   string
+	Assume []LitM
+	Ret    [][]string // per result index: allowed canonical renderings (nil = any)
+	Must   []func(ssa.Instruction) bool
+	Never  []func(ssa.Instruction) bool
+	// NoReturn: the row must not reach any return (e.g. it panics or loops)
+	NoReturn bool
+}
+
+func A(ms ...LitM) []LitM        { return ms }
+func Vals(vs ...string) []string { return vs }
+
+// Table evaluates a decision table on fn.  Every atom used in an assumption
+// must be tested somewhere in fn.
+func (o *Ob) Table(fn *ssa.Function, key string, rows []Row) {
+	e := o.E
+	for _, row := range rows {
+		rk := key + "|" + row.Name
+		missing := false
+		for _, a := range row.Assume {
+			if e.CountLitEdges(fn, a)+e.CountLitEdges(fn, a.Neg()) == 0 {
+				o.FailAt(rk+"|atom", "row '"+row.Name+"': "+fnName(fn)+" no longer branches on "+a.Desc+" (branch conditions present: "+strings.Join(e.LitsOf(fn), " ; ")+")", fn)
+				missing = true
+			}
+		}
+		if missing {
+			continue
+		}
+		cut := e.CutContradicting(row.Assume...)
+		r := (&Walk{Fn: fn, Cut: cut}).FromEntry()
+		rets := r.Returns()
+		var ds []string
+		for _, a := range row.Assume {
+			ds = append(ds, a.Desc)
+		}
+		under := strings.Join(ds, " ∧ ")
+		if row.NoReturn {
+			o.Check(len(rets) == 0, rk+"|returns", "row '"+row.Name+"': under "+under+" no normal return is expected", firstRet(rets))
+			continue
+		}
+		if !o.Check(len(rets) > 0, rk+"|noreturn", "row '"+row.Name+"': under "+under+" no return is reachable", nil) {
+			continue
+		}
+		for _, ret := range rets {
+			var shown []string
+			for i, allowed := range row.Ret {
+				if allowed == nil {
+					continue
+				}
+				vs := e.ValStrs(fn, e.RetVals(r, ret, i))
+				shown = append(shown, strings.Join(vs, "|"))
+				for _, v := range vs {
+					ok := false
+					for _, a := range allowed {
+						if a == v || strings.HasPrefix(a, "~") && regexpMatch(a[1:], v) {
+							ok = true
+						}
+					}
+					o.Check(ok, rk+"|ret"+itoa(i), "row '"+row.Name+"': under "+under+" result #"+itoa(i)+" may be "+v+", expected "+strings.Join(allowed, " or "), ret)
+				}
+			}
+			o.Site(ret, "row '"+row.Name+"' ["+under+"] → "+strings.Join(shown, ", "))
+		}
+		for i, m := range row.Must {
+			rr := (&Walk{Fn: fn, Cut: cut, Barrier: m}).FromEntry()
+			o.Check(len(rr.Returns()) == 0, rk+"|must"+itoa(i), "row '"+row.Name+"': under "+under+" a required effect is skipped on some path", firstRet(rr.Returns()))
+		}
+		for i, m := range row.Never {
+			for _, in := range AllInstrs(fn) {
+				if r.Has(in) && m(in) {
+					o.Fail(rk+"|never"+itoa(i), "row '"+row.Name+"': under "+under+" a forbidden effect is reachable", in)
+				}
+			}
+			o.Checks++
+			o.Passed++
+		}
+	}
+}
+
+func firstRet(rs []*ssa.Return) ssa.Instruction {
+	if len(rs) == 0 {
+		return nil
+	}
+	return rs[0]
+}
+
+var rxCache = map[string]*regexp.Regexp{}
+
+func regexpMatch(re, s string) bool {
+	rx := rxCache[re]
+	if rx == nil {
+		rx = regexp.MustCompile("^(?:" + re + ")$")
+		rxCache[re] = rx
+	}
+	return rx.MatchString(s)
+}
+
+func isMapUpdate(in ssa.Instruction) bool { _, ok := in.(*ssa.MapUpdate); return ok }
+
+func isBuiltinCall(name string) func(ssa.Instruction) bool {
+	return func(in ssa.Instruction) bool {
+		c, ok := in.(*ssa.Call)
+		if !ok {
+			return false
+		}
+		b, ok := c.Call.Value.(*ssa.Builtin)
+		return ok && b.Name() == name
+	}
+}
+
+// LockedAccesses checks that every access to field (T,F) holds the mutex field
+// `mutex` of the same object: writes need the write lock, reads at least the
+// read lock.  exempt maps canonical function names to the reason they are exempt.
+func (o *Ob) LockedAccesses(T, F, mutex string, exempt map[string]string) int {
+	n := 0
+	for _, a := range o.E.Accesses(T, F) {
+		name := fnName(a.Fn)
+		if why, ok := exempt[name]; ok {
+			o.Note("exempt from lock rule: %s accesses %s.%s — %s", name, T, F, why)
+			continue
+		}
+		n++
+		mode := byte('R')
+		if a.Write {
+			mode = 'W'
+		}
+		ok, why := o.E.HeldAt(a.Instr, a.Base, mutex, mode, 4)
+		o.Site(a.Instr, a.Kind+" of "+T+"."+F)
+		what := "read"
+		if a.Write {
+			what = "write"
+		}
+		o.Check(ok, "unlocked|"+F+"|"+name, what+" of "+T+"."+F+" without holding "+mutex+": "+why, a.Instr)
+	}
+	return n
+}
+
+// WritersWithin checks that the functions writing field (T,F) are within the allowed set.
+func (o *Ob) WritersWithin(T, F string, allowed map[string]string) {
+	for _, w := range o.E.Writers(T, F) {
+		n := fnName(w.Fn)
+		o.Site(w.Instr, w.Kind+" of "+T+"."+F)
+		_, ok := allowed[n]
+		o.Check(ok, "writer|"+F+"|"+n, T+"."+F+" is written ("+w.Kind+") by "+n+", which is not one of its owners", w.Instr)
+	}
 }
